@@ -34,3 +34,10 @@ pub fn replay_step(input: &serde_json::Value) {
     println!("peer {} results {:?} -> code {} msg {} next {:?}", peer.name, results, o.ret_code, o.error_message, o.next_peer_pks);
     for (nm, d) in [("prev", &prev), ("cur", &cur), ("out", &o.data)] { if let Some(f) = facts(d) { println!("  {nm}: lcid {}", f.lcid); for (i, s) in f.trace.iter().enumerate() { println!("     {i}: {}", short(s)); } } }
 }
+
+pub fn print_ast(air: &str) {
+    match air_parser::parse(air) {
+        Ok(i) => println!("{}", serde_json::to_string(&i).unwrap()),
+        Err(e) => println!("ERR {e}"),
+    }
+}
